@@ -102,7 +102,7 @@ def write_shards(prop, cases, nshards=NPROC):
 
 def _run_one(binary, path, timeout):
     try:
-        p = subprocess.run([binary, path], stdout=subprocess.PIPE, stderr=subprocess.PIPE, timeout=timeout, text=True)
+        p = subprocess.run(["bash", "-c", "ulimit -s unlimited 2>/dev/null; exec \"$0\" \"$1\"", binary, path], stdout=subprocess.PIPE, stderr=subprocess.PIPE, timeout=timeout, text=True)
         return p.returncode, p.stdout, p.stderr
     except subprocess.TimeoutExpired as e:
         return 124, (e.stdout or b"").decode() if isinstance(e.stdout, bytes) else (e.stdout or ""), "timeout"
